@@ -200,9 +200,8 @@ pub fn meta_c14(input: &[u8]) -> Option<Mismatch> {
         let declared = (hb[14] as usize) * 256 + hb[15] as usize;
         let mut cat = ab.to_vec(); cat.extend_from_slice(tb);
         let views = cat[..] == hb[16..] && (if fam == v2::AddressFamily::Unspecified { ab.len() == hb.len() - 16 } else { ab.len() == size })
-            && h.length() + 16 == h.len() && h.len() == h.as_bytes().len() && h.as_bytes() == hb && h.length() == declared && !h.is_empty()
-            && fam_nibble(fam) == (hb[13] & 0xF0) && h.addresses.address_family() == fam && h.addresses.len() == size && h.addresses.is_empty() == (size == 0)
-            && u16::from(fam) as usize == size && h.tlvs().as_bytes() == tb;
+            && h.length() + 16 == h.len() && h.len() == h.as_bytes().len() && h.as_bytes() == hb && h.length() == declared
+            && fam_nibble(fam) == (hb[13] & 0xF0) && h.addresses.address_family() == fam;
         let be = |x: &[u8]| (x[0] as u16) * 256 + x[1] as u16;
         let decoded = match h.addresses {
             v2::Addresses::Unspecified => true,
@@ -228,7 +227,7 @@ pub fn meta_c13(input: &[u8]) -> Option<Mismatch> {
         let case = &hb[..hb.len().min(300)];
         let raw = v2::Builder::new(hb[12], hb[13]).write_payload(h.address_bytes()).and_then(|b| b.write_payload(h.tlv_bytes())).and_then(|b| b.build());
         if raw.as_ref().ok().map(|v| &v[..]) != Some(hb) { return mm(case, format!("rebuilding from control bytes + address bytes + raw TLV bytes gives the header back (len={})", hb.len()), show(&raw)); }
-        let items: Vec<_> = h.tlvs().collect();
+        let items: Vec<_> = h.tlvs().take(h.tlv_bytes().len() / 3 + 7).collect();
         if items.iter().all(|i| i.is_ok()) {
             let mut b = v2::Builder::new(hb[12], hb[13]).write_payload(h.address_bytes());
             for it in &items { let t = it.as_ref().unwrap(); b = b.and_then(|b| b.write_tlv(t.kind, t.value.as_ref())); }
@@ -288,7 +287,7 @@ pub fn meta_c16_v2(input: &[u8]) -> Option<Mismatch> {
             if o != h || o.as_bytes() != h.as_bytes() || o.address_bytes() != h.address_bytes() || o.tlv_bytes() != h.tlv_bytes() || o.length() != h.length() || o.address_family() != h.address_family() {
                 return mm(&input[..input.len().min(200)], "the owned v2 header equals the original and exposes the same views", format!("{:.300}", format!("{:?}", o)));
             }
-            let items: Vec<_> = h.tlvs().filter_map(|i| i.ok()).collect();
+            let items: Vec<_> = h.tlvs().take(h.tlv_bytes().len() / 3 + 7).filter_map(|i| i.ok()).collect();
             let io: Vec<v2::TypeLengthValue<'static>> = items.iter().map(|t| t.to_owned()).collect();
             for (a, b) in items.iter().zip(&io) { if a != b || a.len() != b.len() || a.kind != b.kind { return mm(&input[..input.len().min(200)], "the owned TLV equals the original", format!("{:?} vs {:?}", b, a)); } }
             let is = format!("{:?}", items);
@@ -397,11 +396,171 @@ pub fn c01_fromstr(input: &[u8]) -> Option<Mismatch> {
         let fh = text.parse::<v1::Header<'static>>();
         let fa = text.parse::<v1::Addresses>();
         let ok = match (&want, &fh, &fa) {
-            (V1Out::Accept(shown, line), Ok(h), Ok(a)) => show_v1_addr(&h.addresses) == *shown && show_v1_addr(a) == *shown && h.header.as_bytes() == &line[..],
+            (V1Out::Accept(shown, line), Ok(h), Ok(a)) => show_v1_addr(&h.addresses) == *shown && show_v1_addr(a) == *shown && h.header.as_bytes() == &line[..]
+                && line.get(6..6 + h.protocol().len()) == Some(h.protocol().as_bytes()) && shown.to_uppercase().starts_with(h.protocol()),
             (V1Out::Accept(..), _, _) => false,
             (_, Err(_), Err(_)) => true,
             _ => false,
         };
         if ok { None } else { mm(input, format!("FromStr entry points: {:?}", want), format!("FromStr<Header> {:?} / FromStr<Addresses> {:?}", fh, fa)) }
+    })
+}
+
+// ------------------------------------------------------------------------------------------------------------- C11 (TLV section of an accepted header)
+pub fn c11_of_header(input: &[u8]) -> Option<Mismatch> {
+    guarded(input, "TLV iteration of an accepted header (C11)", || {
+        let Ok(h) = v2::Header::try_from(input) else { return None };
+        check_tlv_walk(h.tlv_bytes()).or_else(|| {
+            let a: Vec<_> = h.tlvs().take(h.tlv_bytes().len() / 3 + 7).collect();
+            let b: Vec<_> = v2::TypeLengthValues::from(h.tlv_bytes()).take(h.tlv_bytes().len() / 3 + 7).collect();
+            if a != b { mm(&input[..input.len().min(200)], "tlvs() of the header == iteration of its tlv_bytes()", format!("{} vs {} items", a.len(), b.len())) } else { None }
+        })
+    })
+}
+
+// ------------------------------------------------------------------------------------------------------------- C20 (every kind of value)
+/// every kind of encodable value into a pre-filled writer: appended after what is there, count == bytes appended,
+/// `to_bytes` the same encoding; a TLV / pair too large for its 16-bit length is refused without writing anything
+pub fn check_c20_values() -> Option<Mismatch> {
+    use v2::WriteToHeader;
+    fn one<T: WriteToHeader + ?Sized>(name: &str, v: &T, enc: &[u8]) -> Option<Mismatch> {
+        let r = std::panic::catch_unwind(std::panic::AssertUnwindSafe(|| {
+            let mut w = v2::Writer::from(vec![9u8, 8]);
+            let n = v.write_to(&mut w);
+            let out = w.finish();
+            let tb = v.to_bytes();
+            (n.ok(), out, tb.ok())
+        }));
+        match r {
+            Err(_) => Some(Mismatch { case: name.into(), expected: "write_to / to_bytes return".into(), actual: "PANIC in an encoder".into() }),
+            Ok((n, out, tb)) => if n != Some(enc.len()) || out.len() != 2 + enc.len() || out[..2] != [9, 8] || out[2..] != *enc || tb.as_deref() != Some(enc) {
+                Some(Mismatch { case: name.into(), expected: format!("appends {} after [9, 8] and returns {}", hex(&enc[..enc.len().min(40)]), enc.len()), actual: format!("returned {:?}, writer {} bytes: {}, to_bytes {:?}", n, out.len(), hex(&out[..out.len().min(44)]), tb.map(|t| hex(&t[..t.len().min(40)]))) })
+            } else { None }
+        }
+    }
+    let a4 = v2::IPv4::new([1, 2, 3, 4], [5, 6, 7, 8], 0x1234, 443);
+    let a6 = v2::IPv6::new([0x2001, 0xdb8, 0, 0, 0, 0, 0, 1], [0xfe80, 0, 0, 0, 1, 2, 3, 4], 65535, 1);
+    let mut up = [0u8; 108]; let mut uq = [0u8; 108];
+    for i in 0..108 { up[i] = (i + 1) as u8; uq[i] = (200 - i) as u8; }
+    let mut b6 = Vec::new(); for s in [0x2001u16, 0xdb8, 0, 0, 0, 0, 0, 1, 0xfe80, 0, 0, 0, 1, 2, 3, 4] { b6.extend_from_slice(&s.to_be_bytes()); } b6.extend_from_slice(&[0xff, 0xff, 0, 1]);
+    let mut bu = up.to_vec(); bu.extend_from_slice(&uq);
+    let val = [7u8, 6, 5];
+    let checks: Vec<Option<Mismatch>> = vec![
+        one("Addresses::Unspecified", &v2::Addresses::Unspecified, &[]),
+        one("Addresses::IPv4", &v2::Addresses::IPv4(a4), &[1, 2, 3, 4, 5, 6, 7, 8, 0x12, 0x34, 1, 187]),
+        one("Addresses::IPv6", &v2::Addresses::IPv6(a6), &b6),
+        one("Addresses::Unix", &v2::Addresses::Unix(v2::Unix::new(up, uq)), &bu),
+        one("TypeLengthValue", &v2::TypeLengthValue::new(0x22u8, &val[..]), &[0x22, 0, 3, 7, 6, 5]),
+        one("TypeLengthValue (empty value)", &v2::TypeLengthValue::new(4u8, &val[..0]), &[4, 0, 0]),
+        one("(Type, bytes)", &(v2::Type::SSLCommonName, &val[..]), &[0x22, 0, 3, 7, 6, 5]),
+        one("(u8, bytes)", &(0xEEu8, &val[..]), &[0xEE, 0, 3, 7, 6, 5]),
+        one("byte slice", &val[..], &[7, 6, 5]),
+        one("TLV section", &v2::TypeLengthValues::from(&[4u8, 0, 0, 1, 0, 1, 9][..]), &[4, 0, 0, 1, 0, 1, 9]),
+        { let mut it = v2::TypeLengthValues::from(&[4u8, 0, 0, 1, 0, 1, 9][..]); let _ = it.next(); one("TLV section after one next()", &it, &[4, 0, 0, 1, 0, 1, 9]) },
+        one("Type", &v2::Type::SSL, &[0x20]),
+        one("u16", &0x1234u16, &[0x12, 0x34]),
+        one("i64", &(-2i64), &(-2i64).to_be_bytes()),
+    ];
+    if let Some(m) = checks.into_iter().flatten().next() { return Some(m); }
+    // too large for the 16-bit length: refused, and nothing written
+    let big = vec![1u8; 65536];
+    for which in 0..2 {
+        let r = std::panic::catch_unwind(|| {
+            let mut w = v2::Writer::from(vec![9u8, 8]);
+            let r = if which == 0 { v2::TypeLengthValue::new(4u8, &big[..]).write_to(&mut w) } else { (4u8, &big[..]).write_to(&mut w) };
+            (r.is_err(), w.finish())
+        });
+        match r {
+            Err(_) => return Some(Mismatch { case: "a TLV with a 65536-byte value".into(), expected: "refused".into(), actual: "PANIC".into() }),
+            Ok((refused, out)) => if !refused || out != vec![9u8, 8] { return Some(Mismatch { case: format!("a {} with a 65536-byte value into a writer holding [9, 8]", if which == 0 { "TypeLengthValue" } else { "(type, bytes) pair" }), expected: "refused without writing anything".into(), actual: format!("refused={} writer now holds {} bytes", refused, out.len()) }); }
+        }
+    }
+    None
+}
+
+// ------------------------------------------------------------------------------------------------------------- builder: other constructors / control bytes
+/// "the two control bytes as given (the family nibble taken from the address value when one is supplied at construction)",
+/// the construction-time address block of every family, then the payloads: other control bytes, commands, transports
+/// and families than the histories of `builder_histories` use
+pub fn check_builder_ctors() -> (Option<Mismatch>, usize) {
+    let a6 = v2::IPv6::new([0x2001, 0xdb8, 0, 0, 0, 0, 0, 1], [0xfe80, 0, 0, 0, 1, 2, 3, 4], 65535, 1);
+    let mut up = [0u8; 108]; let mut uq = [0u8; 108];
+    for i in 0..108 { up[i] = (i + 1) as u8; uq[i] = (200 - i) as u8; }
+    let mut b6 = Vec::new(); for s in [0x2001u16, 0xdb8, 0, 0, 0, 0, 0, 1, 0xfe80, 0, 0, 0, 1, 2, 3, 4] { b6.extend_from_slice(&s.to_be_bytes()); } b6.extend_from_slice(&[0xff, 0xff, 0, 1]);
+    let mut bu = up.to_vec(); bu.extend_from_slice(&uq);
+    let ux = v2::Unix::new(up, uq);
+    let mut n = 0;
+    for variant in 0..9usize {
+        for hist in 0..4usize {
+            n += 1;
+            let (name, vc, afp, addr): (&str, u8, u8, Vec<u8>) = match variant {
+                0 => ("Builder::new(0xFF, 0xEE)", 0xFF, 0xEE, vec![]),
+                1 => ("Builder::new(0x00, 0x00)", 0x00, 0x00, vec![]),
+                2 => ("Builder::new(0x20, 0x02)", 0x20, 0x02, vec![]),
+                3 => ("with_addresses(Two | Local, Datagram, IPv6)", 0x20, 0x22, b6.clone()),
+                4 => ("with_addresses(Two | Proxy, Unspecified, Unix)", 0x21, 0x30, bu.clone()),
+                5 => ("with_addresses(Two | Local, Stream, Unspecified)", 0x20, 0x01, vec![]),
+                6 => ("with_addresses(Two | Proxy, Datagram, IPv4 via From<IPv4>)", 0x21, 0x12, vec![1, 2, 3, 4, 5, 6, 7, 8, 0, 80, 1, 187]),
+                7 => ("with_addresses(Two | Proxy, Stream, (SocketAddr V6, SocketAddr V6))", 0x21, 0x21, b6.clone()),
+                _ => ("with_addresses(Two | Proxy, Stream, (SocketAddr V4, SocketAddr V4))", 0x21, 0x11, vec![1, 2, 3, 4, 5, 6, 7, 8, 0, 80, 1, 187]),
+            };
+            let r = std::panic::catch_unwind(|| {
+                let b = match variant {
+                    0 => v2::Builder::new(0xFF, 0xEE), 1 => v2::Builder::new(0, 0), 2 => v2::Builder::new(0x20, 0x02),
+                    3 => v2::Builder::with_addresses(v2::Version::Two | v2::Command::Local, v2::Protocol::Datagram, a6),
+                    4 => v2::Builder::with_addresses(v2::Version::Two | v2::Command::Proxy, v2::Protocol::Unspecified, ux),
+                    5 => v2::Builder::with_addresses(v2::Version::Two | v2::Command::Local, v2::Protocol::Stream, v2::Addresses::Unspecified),
+                    6 => v2::Builder::with_addresses(v2::Version::Two | v2::Command::Proxy, v2::Protocol::Datagram, v2::IPv4::new([1, 2, 3, 4], [5, 6, 7, 8], 80, 443)),
+                    7 => v2::Builder::with_addresses(v2::Version::Two | v2::Command::Proxy, v2::Protocol::Stream, (
+                        std::net::SocketAddr::V6(std::net::SocketAddrV6::new(a6.source_address, a6.source_port, 7, 3)),
+                        std::net::SocketAddr::V6(std::net::SocketAddrV6::new(a6.destination_address, a6.destination_port, 1, 2)))),
+                    _ => v2::Builder::with_addresses(v2::Version::Two | v2::Command::Proxy, v2::Protocol::Stream, (
+                        std::net::SocketAddr::V4(std::net::SocketAddrV4::new([1, 2, 3, 4].into(), 80)),
+                        std::net::SocketAddr::V4(std::net::SocketAddrV4::new([5, 6, 7, 8].into(), 443)))),
+                };
+                let mut model = BuilderModel::new(vc, afp, addr.clone());
+                let got = match hist {
+                    0 => b.build(),
+                    1 => { model.write(Some(vec![vec![7, 8, 9]])); b.write_payload(&[7u8, 8, 9][..]).and_then(|b| b.build()) }
+                    3 => { // a TLV section that has already been iterated a step is still written whole
+                        let sec = [4u8, 0, 0, 1, 0, 1, 9];
+                        let mut it = v2::TypeLengthValues::from(&sec[..]); let _ = it.next();
+                        model.write(Some(vec![sec.to_vec()])); b.write_payload(it).and_then(|b| b.build()) }
+                    _ => { model.write(tlv_chunks(4, &[1, 2])); model.write(Some(vec![vec![0x12, 0x34]])); b.write_tlv(4u8, &[1u8, 2][..]).and_then(|b| b.write_payload(0x1234u16)).and_then(|b| b.build()) }
+                };
+                (model.build(), got.ok())
+            });
+            let case = format!("{} history #{}", name, hist);
+            match r {
+                Err(_) => return (Some(Mismatch { case, expected: "no panic".into(), actual: "PANIC in the builder".into() }), n),
+                Ok((want, got)) => if want != got {
+                    let sh = |v: &Option<Vec<u8>>| match v { Some(v) => format!("len={} head={}", v.len(), hex(&v[..v.len().min(48)])), None => "Err".into() };
+                    return (Some(Mismatch { case, expected: sh(&want), actual: sh(&got) }), n);
+                }
+            }
+        }
+    }
+    (None, n)
+}
+
+// ------------------------------------------------------------------------------------------------------------- C03 (formatters)
+/// every formatter on the values the entry points return: `Display` of headers, addresses and errors, `Debug` of results
+pub fn c03_formatters(input: &[u8]) -> Option<Mismatch> {
+    guarded(input, "a formatter (C03)", || {
+        let r1 = v1::Header::try_from(input);
+        let _ = format!("{:?}", r1);
+        match &r1 { Ok(h) => { let _ = (h.to_string(), h.addresses.to_string(), h.to_owned().to_string()); }, Err(e) => { let _ = e.to_string(); } }
+        if let Ok(t) = std::str::from_utf8(input) {
+            match v1::Header::try_from(t) { Ok(h) => { let _ = h.to_string(); }, Err(e) => { let _ = e.to_string(); } }
+            if let Err(e) = t.parse::<v1::Addresses>() { let _ = e.to_string(); }
+        }
+        let r2 = v2::Header::try_from(input);
+        let _ = format!("{:.400}", format!("{:?}", r2.as_ref().map(|h| h.header.len())));
+        match &r2 {
+            Ok(h) => { let _ = (h.to_string(), h.to_owned().to_string()); for i in h.tlvs().take(h.tlv_bytes().len() / 3 + 7) { match i { Ok(t) => { let _ = format!("{:?}", t.kind); }, Err(e) => { let _ = e.to_string(); } } } },
+            Err(e) => { let _ = e.to_string(); }
+        }
+        let _ = HeaderResult::parse(input).is_complete();
+        None
     })
 }
